@@ -269,7 +269,8 @@ add({"name": "CRC16Base_update", "file": "dfs/crc16.cc", "anchor": r"void CRC16B
      "sig": "static void CRC16Base_update(struct CRC16Base *self, const uint8_t *start, const uint8_t *end)",
      "pre": "#define crc_ (self->crc_)\n", "post": "#undef crc_\n",
      "rules": [(r"const auto in = \*p\+\+;", "const uint8_t in = *p++;", 1), ASSERT(1),
-               (r"(for \(const uint8_t\* p = start; p < end; \))", r"\1 CRC_UPDATE_LOOP_CONTRACT", 1)]})
+               (r"(for \(const uint8_t\* p = start; p < end; \))", r"\1 CRC_UPDATE_LOOP_CONTRACT", 1),
+               (r"(for\(int k = 0; k < 8; k\+\+\))", r"CRC_INNER_GHOST_SETUP \1 CRC_INNER_LOOP_CONTRACT", 1)]})
 add({"name": "CRC16Base_update_bit", "file": "dfs/crc16.cc", "anchor": r"void CRC16Base::update_bit\(bool bitval\)",
      "sig": "static void CRC16Base_update_bit(struct CRC16Base *self, bool bitval)",
      "pre": "#define crc_ (self->crc_)\n", "post": "#undef crc_\n", "rules": [ASSERT(1)]})
